@@ -13,8 +13,7 @@ SizesMore  == { <<2, 2>>, <<3, 2>>, <<2, 3>>, <<3, 3>> }
 \* <<order, interior nodes per element>>: plain and bubble layouts of orders 2 and 3 (and an abstract 4)
 ElevSmall == { <<2, 0>>, <<2, 1>>, <<3, 1>>, <<3, 3>> }
 ElevMore  == { <<2, 0>>, <<2, 1>>, <<3, 1>>, <<3, 3>>, <<4, 3>>, <<5, 6>> }
-NoElev == {}
-NoSizes == {}
+ElevMid   == { <<2, 0>>, <<3, 1>>, <<4, 3>> }
 
 GInit == Init /\ hist = <<>>
 
